@@ -148,7 +148,8 @@ theorem open_range {q : List Nat} {c : Option (List Nat)} {s s1 : St} {bits : Li
     (hb : getBitIndices s q c = .ok bits) (hne : bits ≠ []) (h : startRangeOp q c s = .ok s1) :
     ∃ s0, Pre s s0 ∧ Wrote s0 s1 [] ∧ s1.ranges ≠ [] ∧ s1.rcols ≠ [] ∧ s1.ranges.tail = s.ranges ∧
       s1.controlled = s.controlled ∧ Shape s1 ∧
-      (s.ranges = [] → Inv s0 ∧ ∀ x ∈ bits, s0.inUse[x]? = some false) := by
+      (s.ranges = [] → Inv s0 ∧ ∃ f l, (∀ x ∈ bits, f ≤ x ∧ x ≤ l) ∧
+        ∀ r, f ≤ r → r ≤ l → s0.inUse[r]? = some false) := by
   rcases hr with ⟨hr0, hinv⟩ | ⟨hrn, hcols, hsh⟩
   · obtain ⟨bits', hb', hcase⟩ := startRangeOp_top hinv.shape hr0 h
     rw [hb] at hb'; injection hb' with hb'; subst hb'
@@ -171,7 +172,7 @@ theorem open_range {q : List Nat} {c : Option (List Nat)} {s s1 : St} {bits : Li
       · simp [hr0]
       · rcases hs0 with rfl | rfl <;> rfl
       · intro _
-        exact ⟨hinv0, fun y hy => hfree y (hin y hy).1 (hin y hy).2⟩
+        exact ⟨hinv0, f, l, hin, hfree⟩
   · refine ⟨s, Or.inl rfl, ?_⟩
     unfold startRangeOp at h
     rw [hb] at h
@@ -258,7 +259,7 @@ theorem range_gate {q : List Nat} {s s' : St} {ws : List (Nat × Sym)} {body : S
     (hr : Ready s)
     (hbody : ∀ s1 s2, s1.ranges ≠ [] → s1.rcols ≠ [] → Shape s1 → s1.controlled = s.controlled → body s1 = .ok s2 →
       Wrote s1 s2 ws ∧ s2.ranges = s1.ranges ∧ s2.controlled = s1.controlled)
-    (hrows : ∀ p ∈ ws, p.1 ∈ q)
+    (hrows : ∀ p ∈ ws, ∃ lo ∈ q, ∃ hi ∈ q, lo ≤ p.1 ∧ p.1 ≤ hi)
     (h : (startRangeOp q none s >>== fun s1 => body s1 >>== endRangeOp) = .ok s') :
     ∃ s0, Pre s s0 ∧ Wrote s0 s' ws ∧ s'.ranges = s.ranges ∧ s'.controlled = s.controlled ∧
       (s.ranges = [] → Inv s0 ∧ ∀ p ∈ ws, s0.inUse[p.1]? = some false) := by
@@ -274,8 +275,10 @@ theorem range_gate {q : List Nat} {s s' : St} {ws : List (Nat × Sym)} {body : S
   · rw [hr3, hr2, htail]
   · rw [hc3, hc2, hctl]
   · intro h0
-    obtain ⟨hi, hf⟩ := hfree h0
-    exact ⟨hi, fun p hp => hf p.1 (hrows p hp)⟩
+    obtain ⟨hi, f, l, hin, hf⟩ := hfree h0
+    exact ⟨hi, fun p hp => by
+      obtain ⟨lo, hlo, hi', hhi, h1, h2⟩ := hrows p hp
+      exact hf p.1 (Nat.le_trans (hin lo hlo).1 h1) (Nat.le_trans h2 (hin hi' hhi).2)⟩
 
 
 theorem bind_assoc {α β γ} (r : Res α) (f : α → Res β) (g : β → Res γ) :
@@ -390,7 +393,7 @@ theorem simple_spec : ∀ (g : Gate), simple g = true → ∀ (bits : List Nat) 
         injection hb2 with hb2; subst hb2
         obtain ⟨hw, h1, h2⟩ := setField_inRange hrn hb1
         exact ⟨by simpa [writes] using hw, h1, h2⟩
-      · intro p hp; exact writes_rows _ _ _ p hp
+      · intro p hp; exact ⟨p.1, writes_rows _ _ _ p hp, p.1, writes_rows _ _ _ p hp, Nat.le_refl _, Nat.le_refl _⟩
   | .x, _, bits, s, s', hr, h => by
     simp only [latex] at h
     obtain ⟨u, hu, h⟩ := Res.bind_eq_ok.mp h
@@ -428,7 +431,7 @@ theorem simple_spec : ∀ (g : Gate), simple g = true → ∀ (bits : List Nat) 
           obtain ⟨hw1, hr1, hc1⟩ := setField_inRange hrn hb1
           obtain ⟨hw2, hr2, hc2⟩ := setField_inRange (by rw [hr1]; exact hrn) hb2
           exact ⟨by simpa [writes] using hw1.trans hw2, hr2.trans hr1, hc2.trans hc1⟩
-        · intro p hp; exact writes_rows _ _ _ p hp
+        · intro p hp; exact ⟨p.1, writes_rows _ _ _ p hp, p.1, writes_rows _ _ _ p hp, Nat.le_refl _, Nat.le_refl _⟩
   | .c g, hs, bits, s, s', hr, h => by
     simp only [simple] at hs
     simp only [latex] at h
@@ -480,7 +483,7 @@ theorem simple_spec : ∀ (g : Gate), simple g = true → ∀ (bits : List Nat) 
           rw [hr2]; exact hr1
         · show sa.controlled = s1.controlled
           exact hc1
-      · intro p hp; exact writes_rows _ _ _ p hp
+      · intro p hp; exact ⟨p.1, writes_rows _ _ _ p hp, p.1, writes_rows _ _ _ p hp, Nat.le_refl _, Nat.le_refl _⟩
 
 
 /-- Operand list fits the gate and every control lies outside the span of its targets. -/
@@ -711,7 +714,7 @@ theorem range_op {q : List Nat} {c : Option (List Nat)} {bits : List Nat} {s s' 
     (hbody : ∀ s1 s2, s1.ranges ≠ [] → s1.rcols ≠ [] → Shape s1 → s1.controlled = s.controlled →
       s1.nq = s.nq → s1.nc = s.nc → body s1 = .ok s2 →
       Wrote s1 s2 ws ∧ s2.ranges = s1.ranges ∧ s2.controlled = s1.controlled)
-    (hrows : ∀ p ∈ ws, p.1 ∈ bits)
+    (hrows : ∀ p ∈ ws, ∃ lo ∈ bits, ∃ hi ∈ bits, lo ≤ p.1 ∧ p.1 ≤ hi)
     (h : (startRangeOp q c s >>== fun s1 => body s1 >>== endRangeOp) = .ok s') :
     ∃ s0, Pre s s0 ∧ Wrote s0 s' ws ∧ s'.ranges = s.ranges ∧ s'.controlled = s.controlled ∧
       (s.ranges = [] → Inv s0 ∧ ∀ p ∈ ws, s0.inUse[p.1]? = some false) := by
@@ -730,8 +733,10 @@ theorem range_op {q : List Nat} {c : Option (List Nat)} {bits : List Nat} {s s' 
   · rw [hr3, hr2, htail]
   · rw [hc3, hc2, hctl]
   · intro h0
-    obtain ⟨hi, hf⟩ := hfree h0
-    exact ⟨hi, fun p hp => hf p.1 (hrows p hp)⟩
+    obtain ⟨hi, f, l, hin, hf⟩ := hfree h0
+    exact ⟨hi, fun p hp => by
+      obtain ⟨lo, hlo, hi', hhi, h1, h2⟩ := hrows p hp
+      exact hf p.1 (Nat.le_trans (hin lo hlo).1 h1) (Nat.le_trans h2 (hin hi' hhi).2)⟩
 
 theorem getBitIndices_meas {s : St} {q c : Nat} {bits : List Nat}
     (h : getBitIndices s [q] (some [c]) = .ok bits) : bits = [q, s.nq + c] ∧ q < s.nq := by
@@ -770,7 +775,9 @@ theorem inv_setMeasurement {q c : Nat} {b : Option String} {s s' : St} (hinv : I
       obtain ⟨hw1, hr1, hc1⟩ := setField_inRange hrn ha
       obtain ⟨hw2, hr2, hc2⟩ := setField_inRange (by rw [hr1]; exact hrn) hb2
       exact ⟨by simpa using hw1.trans hw2, hr2.trans hr1, hc2.trans hc1⟩)
-    (by intro p hp; simp at hp; rcases hp with rfl | rfl <;> simp) h'
+    (by intro p hp; simp at hp; rcases hp with rfl | rfl
+        · exact ⟨q, by simp, q, by simp, Nat.le_refl _, Nat.le_refl _⟩
+        · exact ⟨s.nq + c, by simp, s.nq + c, by simp, Nat.le_refl _, Nat.le_refl _⟩) h'
   obtain ⟨hi0, hf⟩ := hfree hinv.noRange
   refine inv_of_wrote hi0 hw (by rw [hr]; exact hinv.noRange) hf ?_ ?_
   · simp; omega
